@@ -74,8 +74,20 @@ func zzRun(v *zzverif.T, opType string, attrs []*onnx.AttributeProto, inputs []t
 	return r
 }
 
+// zzSpare returns the inputs as a prefix of a longer array whose spare capacity holds stale tensors:
+// what lies behind len(inputs) is not an input (an input gate that re-slices instead of padding shows here).
+func zzSpare(inputs []tensor.Tensor) []tensor.Tensor {
+	buf := make([]tensor.Tensor, len(inputs)+3)
+	copy(buf, inputs)
+	for i := len(inputs); i < len(buf); i++ {
+		buf[i] = zzverif.NewTensor([]float32{7, 7, 7}, []int{3})
+	}
+	return buf[:len(inputs)]
+}
+
 func zzRunOn(op ops.Operator, opType string, attrs []*onnx.AttributeProto, inputs []tensor.Tensor) zzResult {
 	var r zzResult
+	inputs = zzSpare(inputs)
 	n := &onnx.NodeProto{OpType: opType, Attribute: attrs}
 	if err := op.Init(n); err != nil {
 		r.Err, r.Stage = err, "init"
@@ -113,6 +125,7 @@ func zzInitOp(v *zzverif.T, opType string, attrs []*onnx.AttributeProto) (op ops
 // zzApplyOn validates and applies an already initialised operator instance.
 func zzApplyOn(v *zzverif.T, op ops.Operator, inputs []tensor.Tensor) zzResult {
 	var r zzResult
+	inputs = zzSpare(inputs)
 	r.Panicked = v.Try(func() {
 		in, err := op.ValidateInputs(inputs)
 		if err != nil {
